@@ -127,7 +127,12 @@ class Sim:
         self.expected_emissions = 0
         # the client's view of what is enabled: what the object reports after construction,
         # plus track and lineage ids, which a solution manages from the start by contract
-        self.model_active = set(self.tracks.annotators.features) | {self.tracks.features.tracklet_key, self.tracks.features.lineage_key}
+        # the names of the two id attributes as the client knows them from construction: they
+        # never change during a session (switching a feature off removes it from the registry,
+        # not from the registry's special keys), so the oracles do not ask the object again
+        self.tk = self.tracks.features.tracklet_key
+        self.lk = self.tracks.features.lineage_key
+        self.model_active = set(self.tracks.annotators.features) | {self.tk, self.lk}
         self.model_static = set(self.tracks.features) - set(self.tracks.annotators.all_features)
         self.issued_node_ids: list = []
         self.saves: dict = {}  # fmt -> acknowledged save record
@@ -386,7 +391,7 @@ class Sim:
     def structural_ok(self):
         """Structural edits (and undo/redo) are only scheduled while track ids are managed
         (by the client's account: it has not switched them off)."""
-        return self.tracks.features.tracklet_key in self.model_active
+        return self.tk in self.model_active
 
     def N(self, x):
         """The argument as the simulated client passes it: a numpy scalar of the label
@@ -470,8 +475,8 @@ class Sim:
             g.add_nodes_from(tr.graph.nodes)
             g.add_edges_from(tr.graph.edges)
             pre["g"] = g
-            pre["tid"] = {n: d.get(tr.features.tracklet_key) for n, d in tr.graph.nodes(data=True)}
-            pre["lid"] = {n: d.get(tr.features.lineage_key) for n, d in tr.graph.nodes(data=True)}
+            pre["tid"] = {n: d.get(self.tk) for n, d in tr.graph.nodes(data=True)}
+            pre["lid"] = {n: d.get(self.lk) for n, d in tr.graph.nodes(data=True)}
             pre["time"] = {n: d.get(tr.features.time_key) for n, d in tr.graph.nodes(data=True)}
         if self.active("C10"):
             pre["frozen"] = self._capture_frozen()
@@ -619,17 +624,17 @@ class Sim:
                     return
         ids_on = self.structural_ok()
         if self.active("C04") and changed_state and ids_on:
-            for o, m in oracles.track_partition(tr):
+            for o, m in oracles.track_partition(tr, self.tk):
                 self.violate("C04", o, m, op, tags)
                 return
             self.stat("C04.eval")
             if is_edit and cls == "accepted" and out.get("named") is not None:
                 named = self._named(out, pre)
-                for o, m in oracles.frame_clause(pre["g"], pre["tid"], tr, tr.features.tracklet_key, named, "C04"):
+                for o, m in oracles.frame_clause(pre["g"], pre["tid"], tr, self.tk, named, "C04"):
                     self.violate("C04", o, m, op, tags)
                     return
-        if self.active("C05") and changed_state and ids_on and tr.features.lineage_key in tr.annotators.features:
-            for o, m in oracles.lineage_partition(tr):
+        if self.active("C05") and changed_state and ids_on and self.lk is not None and self.lk in self.model_active:
+            for o, m in oracles.lineage_partition(tr, self.lk):
                 self.violate("C05", o, m, op, tags)
                 return
             self.stat("C05.eval")
@@ -637,11 +642,11 @@ class Sim:
                 self.count("c05_structure_changed")
             if is_edit and cls == "accepted" and out.get("named") is not None:
                 named = self._named(out, pre)
-                for o, m in oracles.frame_clause(pre["g"], pre["lid"], tr, tr.features.lineage_key, named, "C05"):
+                for o, m in oracles.frame_clause(pre["g"], pre["lid"], tr, self.lk, named, "C05"):
                     self.violate("C05", o, m, op, tags)
                     return
         if self.active("C06") and ids_on:
-            for o, m in oracles.lookups(tr):
+            for o, m in oracles.lookups(tr, keys=(self.tk, self.lk if self.lk in self.model_active else None)):
                 self.violate("C06", o, m, op, tags)
                 return
             self.stat("C06.eval")
@@ -649,10 +654,10 @@ class Sim:
                 # an id that did not exist before this edit was issued by it; if it now sits
                 # on two different segments (components), it was handed out while in use
                 for key, old_ids, blocks, what in (
-                    (tr.features.tracklet_key, set(pre["tid"].values()), models.segments(tr.graph), "track"),
-                    (tr.features.lineage_key, set(pre["lid"].values()), models.components(tr.graph), "lineage"),
+                    (self.tk, set(pre["tid"].values()), models.segments(tr.graph), "track"),
+                    (self.lk, set(pre["lid"].values()), models.components(tr.graph), "lineage"),
                 ):
-                    if key is None or key not in tr.annotators.features:
+                    if key is None or key not in self.model_active:
                         continue
                     fresh = {}
                     for i, b in enumerate(blocks):
@@ -701,6 +706,18 @@ class Sim:
                     self.violate("C10", "C10.values", f"after {kind}: a feature that is enabled no longer equals its reference: {m}", op, tags)
                     return
                 self.stat("C10.values_after_step")
+            if is_edit and cls == "accepted" and self.tk in self.model_active and not self.violations:
+                # the id features are features too: once (re-)enabled with recomputation they
+                # have to follow every later edit. Judged after accepted edits only - a
+                # history step taken after a renumbering is the listed finding D17, handled
+                # in _check_history_step; and only for keys the client has on
+                res = oracles.track_partition(tr, self.tk) + oracles.lookups(tr, ("tracklet",), keys=(self.tk, None))
+                if self.lk is not None and self.lk in self.model_active:
+                    res += oracles.lineage_partition(tr, self.lk) + oracles.lookups(tr, ("lineage",), keys=(self.tk, self.lk))
+                for _, m in res:
+                    self.violate("C10", "C10.values", f"after {kind}: an id feature that is enabled no longer equals its reference: {m}", op, list(tags) + (["ids_were_recomputed"] if self.tainted else []))
+                    return
+                self.stat("C10.ids_after_edit")
         self._account(op, out, pre, post, is_edit, changed_state)
         if self._pending_abort and not self.violations:
             reason, detail = self._pending_abort
@@ -821,10 +838,10 @@ class Sim:
             # a history step replays actions that recorded the old numbers
             tr = self.tracks
             res = []
-            if tr.features.tracklet_key in self.tainted and tr.features.tracklet_key in self.model_active:
-                res += oracles.track_partition(tr)
-            if tr.features.lineage_key in self.tainted and tr.features.lineage_key in self.model_active:
-                res += oracles.lineage_partition(tr)
+            if self.tk in self.tainted and self.tk in self.model_active:
+                res += oracles.track_partition(tr, self.tk)
+            if self.lk in self.tainted and self.lk in self.model_active:
+                res += oracles.lineage_partition(tr, self.lk)
             for _, m in res:
                 self.violate("C10", "C10.values", f"{kind}() after the ids had been recomputed by enable_features: {m}", op, ["after_id_renumbering"])
                 return
@@ -1723,7 +1740,7 @@ class Sim:
         if not op.get("allow_ids", False):
             # re-computing ids renumbers every track/lineage while the undo history still
             # holds the old numbers; only the C10 profile schedules that (DESIGN §4 C10)
-            keys = [k for k in keys if k not in (tr.features.tracklet_key, tr.features.lineage_key)]
+            keys = [k for k in keys if k not in (self.tk, self.lk)]
         if not keys and not op.get("unknown"):
             return None
         unknown = bool(op.get("unknown"))
@@ -1751,13 +1768,13 @@ class Sim:
             for k in keys:
                 self.epochs[k] = self.epochs.get(k, 0) + 1
                 (self.model_active.add if on else self.model_active.discard)(k)
-                if on and k in (tr.features.tracklet_key, tr.features.lineage_key):
+                if on and k in (self.tk, self.lk):
                     self.tainted.add(k)
             # the current timeline state is re-based: same point, new feature set
             self.timeline.T[self.timeline.p] = (observe.canon(tr), dict(self.epochs))
             if on and self.step_no > 0:
                 self.count("f_enable_after_edits")
-            if on and tr.features.tracklet_key in keys:
+            if on and self.tk in keys:
                 self.count("f_reenable_ids")
         if self.active("C10"):
             if unknown:
@@ -1792,12 +1809,12 @@ class Sim:
                 self.guard("dependency_abort", str(e))
             if "iou" in ks:
                 res += oracles.iou_values(tr, "C10", "values")
-        if tr.features.tracklet_key in ks:
-            res += [("C10.values", m) for _, m in oracles.track_partition(tr)]
-            res += [("C10.values", m) for _, m in oracles.lookups(tr, ("tracklet",))]
-        if tr.features.lineage_key in ks:
-            res += [("C10.values", m) for _, m in oracles.lineage_partition(tr)]
-            res += [("C10.values", m) for _, m in oracles.lookups(tr, ("lineage",))]
+        if self.tk in ks:
+            res += [("C10.values", m) for _, m in oracles.track_partition(tr, self.tk)]
+            res += [("C10.values", m) for _, m in oracles.lookups(tr, ("tracklet",), keys=(self.tk, self.lk))]
+        if self.lk is not None and self.lk in ks:
+            res += [("C10.values", m) for _, m in oracles.lineage_partition(tr, self.lk)]
+            res += [("C10.values", m) for _, m in oracles.lookups(tr, ("lineage",), keys=(self.tk, self.lk))]
         for o, m in res:
             self.violate("C10", "C10.values", f"after enable_features({sorted(ks)}): {m}", op, tags)
             return
@@ -2074,9 +2091,15 @@ class Sim:
     def op_restart(self, op):
         return self.io.op_restart(self, op) if self.io else None
 
-    def adopt(self, tracks):
-        """Continue the session on a rebuilt object (crash-restart)."""
+    def adopt(self, tracks, same_keys=False):
+        """Continue the session on a rebuilt object (crash-restart). `same_keys`: the
+        rebuild keeps the attribute names of the id features (internal format, in-memory
+        rebuild); the CSV and GEFF importers use the standard names."""
         self.tracks = tracks
+        if not same_keys or self.tk is None:
+            self.tk = tracks.features.tracklet_key
+        if not same_keys or self.lk is None:
+            self.lk = tracks.features.lineage_key
         self.with_seg = tracks.segmentation is not None
         worldmod.register_custom(tracks, self.world.get("score_default"))
         self._connect()
@@ -2086,7 +2109,7 @@ class Sim:
         self.timeline = models.Timeline(self._snap(self.last_canon))
         # what the rebuilt object reports, plus the id features the client had on before the
         # restart (a saved registry with lineage ids switched off legitimately comes back so)
-        had = {k for k in (tracks.features.tracklet_key, tracks.features.lineage_key) if k in self.model_active}
+        had = {k for k in (self.tk, self.lk) if k in self.model_active}
         self.model_active = set(tracks.annotators.features) | had
         self.model_static = set(tracks.features) - set(tracks.annotators.all_features)
         self.restarts += 1
